@@ -3,7 +3,7 @@
 From Coq Require Import List Arith ZArith Bool Permutation Sorted.
 From Verif Require Import lib.Wire c14.Model c14.Spec c14.Proofs c14.Proofs_Abs c14.Proofs_Trim c14.Proofs_Main
      c14.Conc c14.SpecConc c14.ProofsConc c14.ProofsConc2 c14.ProofsConc3 c14.ProofsConc4 c14.ProofsConc5
-     c14.Registry c14.ProofsRegistry.
+     c14.Registry c14.ProofsRegistry c14.Conc2 c14.SpecConc2 c14.ProofsConc6 c14.ProofsConc7.
 Import ListNotations.
 Local Open Scope Z_scope.
 
@@ -344,6 +344,197 @@ Proof. vm_compute. repeat split; auto. intros [H|[]]. discriminate. Qed.
 Print Assumptions c14_registry_early_release_loses_the_new_tag.
 
 (* ---- non-vacuity ------------------------------------------------------------------ *)
+(* ==== TWO TRIMS IN FLIGHT, ForceTrim SPLIT (Conc2.v) ========================
+   BasicConnMgr.background() calls trim() without trimMutex: the background
+   trim (thread B) can overlap a TrimOpenConns or a ForceTrim (thread A, the
+   trimMutex holder), each with its OWN candidate snapshot; ForceTrim is split
+   into the per-segment snapshot / sort / selection / close steps of
+   getConnsToCloseEmergency (two passes), racing with every other operation's
+   critical section and with the other trim.  c2run true = the code after
+   "fix: connmgr: a trim pruned a peer's new entry through a stale pointer"
+   (the prune deletes the map entry only if it still is the snapshotted
+   object); c2run false = the code before it.  Every theorem quantifies over
+   every schedule. ==== *)
+Definition final2 (cfg : config) (sched : list act2) : c2 := fst (c2run true cfg (c2init cfg) sched).
+
+(* the monitor that judges the implementation's OVERLAP cases accepts the event
+   trace of every schedule *)
+Theorem c14_overlap_monitor_accepts_every_schedule : forall cfg sched,
+  exists m', cmon2 cfg (m2_init (ainit cfg)) 0 (snd (c2run true cfg (c2init cfg) sched)) = inl m'.
+Proof.
+  intros cfg sched. destruct (j2_run cfg sched (c2init cfg) (m2_init (ainit cfg)) 0 (i2_init true cfg) (j2_init cfg)) as [m' [H _]].
+  exists m'. exact H.
+Qed.
+Print Assumptions c14_overlap_monitor_accepts_every_schedule.
+
+(* bookkeeping is independent of the trims, however many are in flight: in
+   every state of every schedule the cached value is the tag sum, the cached
+   count is the number of tracked connections, and the state is exactly what
+   the monitor derives from the delivered operations (and prunes) alone *)
+Theorem c14_overlap_count_and_totals_every_schedule : forall cfg sched p,
+  let s := c_s (final2 cfg sched) in
+  p_value (peer_at s p) = zsum (p_tags (peer_at s p)) + zsum (p_dec (peer_at s p))
+  /\ count s = zsum (map (fun pi => zlen (p_conns pi)) (peers s))
+  /\ exists m', cmon2 cfg (m2_init (ainit cfg)) 0 (snd (c2run true cfg (c2init cfg) sched)) = inl m' /\ m2_a m' = abs s.
+Proof.
+  intros cfg sched p s. pose proof (i2_inv _ _ (i2_run cfg sched (c2init cfg) (i2_init true cfg)) eq_refl) as H.
+  split; [exact (proj1 (proj2 (peer_at_ok _ p H)))|]. split; [exact (proj2 H)|].
+  destruct (j2_run cfg sched (c2init cfg) (m2_init (ainit cfg)) 0 (i2_init true cfg) (j2_init cfg)) as [m' [Hc HJ]].
+  exists m'. split; [exact Hc|exact (j2_a _ _ HJ)].
+Qed.
+Print Assumptions c14_overlap_count_and_totals_every_schedule.
+
+(* (a), (b) per trim: whatever a regular trim (TrimOpenConns or the background
+   trim) has selected belongs to a peer that THIS trim snapshotted as a
+   candidate: unprotected in the protection table its own snapshot ran under,
+   firstSeen at or before its own gracePeriodStart; and (fix b133a8d) every
+   selected connection was read at a visit of the selection loop at which the
+   entry's firstSeen, re-read under the segment lock, was still at or before
+   gracePeriodStart *)
+Theorem c14_overlap_trim_selects_only_its_own_eligible_candidates : forall cfg sched t,
+  t = c_a (final2 cfg sched) \/ t = c_b (final2 cfg sched) -> t_force t = false ->
+  forall p c, In (p, c) (t_sel t) ->
+    (exists e, In e (t_cands t) /\ e_p e = p /\ is_prot (t_psnap t) p = false /\ e_first e <= t_g t)
+    /\ (exists f cs, In (p, f, cs) (t_visits t) /\ In c cs /\ f <= t_g t).
+Proof.
+  intros cfg sched t Ht Hf p c Hin.
+  pose proof (i2_run cfg sched (c2init cfg) (i2_init true cfg)) as [_ HA HB _].
+  assert (HT : TI (c_s (final2 cfg sched)) t) by (destruct Ht as [-> | ->]; assumption).
+  pose proof (ti_nof _ _ HT Hf) as Hq. split.
+  - destruct (ti_sel _ _ HT p c Hin) as [[e [He Ep]]|Hq']; [|congruence].
+    exists e. unfold p1cands in He. pose proof (ti_unprot _ _ HT e) as Hu. unfold p1cands in Hu. rewrite Hq in He, Hu.
+    repeat split; [exact He|exact Ep|rewrite <- Ep; apply Hu, He|apply (ti_grace _ _ HT Hf e He)].
+  - destruct (ti_vis _ _ HT p c Hin) as [f [cs [Hv Hc]]]. exists f, cs. repeat split; [exact Hv|exact Hc|apply (ti_recheck _ _ HT Hf p f cs Hv)].
+Qed.
+Print Assumptions c14_overlap_trim_selects_only_its_own_eligible_candidates.
+
+(* while a snapshot holds plk.RLock the protection table IS the table recorded
+   for it: Protect/Unprotect are not enabled *)
+Theorem c14_overlap_protect_blocks_during_a_snapshot : forall g cfg cs o,
+  plk_op o = true -> (q_snap (t_ph (c_a cs)) || q_snap (t_ph (c_b cs))) = true -> c2step g cfg cs (BOp o) = None.
+Proof.
+  intros g cfg cs o Ho Hs. cbn [c2step]. destruct (is_trim_op o); [reflexivity|]. rewrite Ho, Hs. reflexivity.
+Qed.
+Print Assumptions c14_overlap_protect_blocks_during_a_snapshot.
+
+(* "only a memory-emergency forced trim may close protected peers, and only
+   after all unprotected ones", for the SPLIT ForceTrim under every schedule:
+   a selected connection belongs to a peer that pass 1 snapshotted as
+   unprotected (under plk.RLock), or pass 2 has begun - and pass 2 begins only
+   after the selection loop of pass 1 visited EVERY candidate of its snapshot,
+   each visit selecting all the connections the entry held at that moment *)
+Theorem c14_overlap_force_trim_protected_only_after_all_unprotected : forall cfg sched,
+  let t := c_a (final2 cfg sched) in
+  t_force t = true ->
+  forall p c, In (p, c) (t_sel t) ->
+    (exists e, In e (p1cands t) /\ e_p e = p /\ is_prot (t_psnap t) p = false)
+    \/ (t_pass2 t = true /\
+        forall e, In e (p1cands t) ->
+          is_prot (t_psnap t) (e_p e) = false /\ e_done e = true /\
+          exists f cs, In (e_p e, f, cs) (t_visits t) /\ forall c', In c' cs -> In (e_p e, c') (t_sel t)).
+Proof.
+  intros cfg sched t Hf p c Hin.
+  pose proof (i2_run cfg sched (c2init cfg) (i2_init true cfg)) as [_ HT _ _]. fold (final2 cfg sched) in HT. fold t in HT.
+  destruct (ti_sel _ _ HT p c Hin) as [[e [He Ep]]|Hq].
+  - left. exists e. repeat split; [exact He|exact Ep|rewrite <- Ep; apply (ti_unprot _ _ HT e He)].
+  - right. split; [exact Hq|]. intros e He.
+    assert (Hd : e_done e = true) by (unfold p1cands in He; rewrite Hq in He; apply (ti_last _ _ HT Hq e He)).
+    split; [apply (ti_unprot _ _ HT e He)|]. split; [exact Hd|].
+    destruct (ti_done _ _ HT Hf e He Hd) as [f [cs Hv]]. exists f, cs. split; [exact Hv|].
+    intros c' Hc'. apply (ti_vsel _ _ HT _ f cs c' Hv Hc').
+Qed.
+Print Assumptions c14_overlap_force_trim_protected_only_after_all_unprotected.
+
+(* the bound on what ONE trim may close, with any number of other trims and
+   operations racing: before its last batch (all connections of one entry) the
+   trim had selected fewer than its target - ncandidates of ITS snapshot minus
+   low for a regular trim, connCount - low as read by ForceTrim before it
+   waited for trimMutex.  Nothing bounds the two trims together: see
+   c14_overlap_two_trims_go_below_low. *)
+Theorem c14_overlap_each_trim_closes_less_than_its_target_before_the_last_batch : forall cfg sched t,
+  t = c_a (final2 cfg sched) \/ t = c_b (final2 cfg sched) ->
+  (t_sel t = [] \/ zlen (t_sel t) - t_lastn t < t_tg0 t) /\ t_tg t = t_tg0 t - zlen (t_sel t).
+Proof.
+  intros cfg sched t Ht. pose proof (i2_run cfg sched (c2init cfg) (i2_init true cfg)) as [_ HA HB _].
+  assert (HT : TI (c_s (final2 cfg sched)) t) by (destruct Ht as [-> | ->]; assumption).
+  split; [apply (ti_bound _ _ HT)|apply (ti_tg _ _ HT)].
+Qed.
+Print Assumptions c14_overlap_each_trim_closes_less_than_its_target_before_the_last_batch.
+
+Theorem c14_overlap_regular_target_is_own_snapshot_minus_low : forall g cfg i s t perm s' t' evs,
+  tstep g cfg i s t (KSortEnd perm) = Some (s', t', evs) -> t_force t = false ->
+  t_tg0 t' = t_ncand t - c_low cfg /\ t_tg t' = t_ncand t - c_low cfg.
+Proof.
+  intros g cfg i s t perm s' t' evs H Hf. cbn [tstep] in H. destruct (t_ph t); try discriminate.
+  destruct (forallb _ _); [|discriminate]. rewrite Hf in H. inversion H; subst. split; reflexivity.
+Qed.
+Print Assumptions c14_overlap_regular_target_is_own_snapshot_minus_low.
+
+(* OVER-CLOSING by two overlapping trims (not against the property: "leaves at
+   most low-watermark connections" bounds what is LEFT from above).  low = 1,
+   two connections; both trims snapshot both peers (target 2 - 1 = 1 each);
+   A closes (1,0); its Disconnected is delivered; B's entry for peer 1 is now a
+   dead object without connections, so B goes on and closes (2,0): each trim
+   stayed within its own bound, together they left 0 < low. *)
+Definition thA := BAct false.
+Definition thB := BAct true.
+Definition w4_cfg := mkCfg 1 2 0 1 [].
+Definition w4_sched : list act2 :=
+  [BOp (Connected 1 0); BOp (Connected 2 0);
+   thA KBegin; thA (KSnap 1); thA (KSnap 2); thA KSnapEnd;
+   thB KBegin; thB (KSnap 1); thB (KSnap 2); thB KSnapEnd;
+   thA (KSortEnd [1; 2]%nat); thA KSelect; thA KSelect; thA KFinish;
+   BOp (Disconnected 1 0);
+   thB (KSortEnd [1; 2]%nat); thB KSelect; thB KSelect; thB KSelect; thB KFinish].
+Theorem c14_overlap_two_trims_go_below_low :
+  let r := c2run true w4_cfg (c2init w4_cfg) w4_sched in
+  In (VClosed false [(1%nat, 0%nat)]) (snd r) /\ In (VClosed true [(2%nat, 0%nat)]) (snd r)
+  /\ t_tg0 (c_a (fst r)) = 1 /\ t_tg0 (c_b (fst r)) = 1 /\ c_low w4_cfg = 1
+  /\ count (fst (step isort w4_cfg (c_s (fst r)) (Disconnected 2 0))) = 0.
+Proof. vm_compute. repeat split; auto 30. Qed.
+Print Assumptions c14_overlap_two_trims_go_below_low.
+
+(* REGRESSION LEMMA for the defect repaired in /repo 6213130 (found while
+   proving c14_overlap_count_and_totals_every_schedule: false of the loop as it
+   was).  Peer 0 was tagged early (temp entry O1, out of grace at time 11); A
+   and B both snapshot O1; A's selection prunes it; Connected(0,0) and TagPeer
+   create a NEW entry O2 (count 3); B's selection reaches its stale pointer:
+   O1 is still temp, without connections, old firstSeen - the old loop deletes
+   BY ID, i.e. O2: a connected, tagged peer is no longer tracked and the count
+   (3) exceeds the tracked connections (2) for ever.  The monitor rejects that
+   trace (clause 35); the repaired loop keeps O2 on the same schedule; and on
+   every schedule on which no such delete fires the old loop and the repaired
+   one are the same run.  The schedule is a directed case of the harness. *)
+Definition w3_cfg := mkCfg 1 2 10 1 [].
+Definition w3_sched : list act2 :=
+  [BOp (TagPeer 0 0 7); BOp (Connected 1 0); BOp (Connected 2 0); BOp (Advance 11);
+   thA KBegin; thA (KSnap 0); thA (KSnap 1); thA (KSnap 2); thA KSnapEnd;
+   thB KBegin; thB (KSnap 0); thB (KSnap 1); thB (KSnap 2); thB KSnapEnd;
+   thA (KSortEnd [0; 1; 2]%nat); thA KSelect;
+   BOp (Connected 0 0); BOp (TagPeer 0 1 5);
+   thB (KSortEnd [0; 1; 2]%nat); thB KSelect;
+   thA KSelect; thA KSelect; thA KFinish; thB KSelect; thB KSelect; thB KFinish].
+Theorem c14_overlap_old_prune_by_id_lost_a_connected_peer :
+  let r := c2run false w3_cfg (c2init w3_cfg) w3_sched in
+  let s := c_s (fst r) in
+  In (VStale true 0) (snd r) /\ tracked s 0 = false /\ count s = 3
+  /\ zsum (map (fun pi => zlen (p_conns pi)) (peers s)) = 2
+  /\ cmon2 w3_cfg (m2_init (ainit w3_cfg)) 0 (snd r) = inr [ERR_PROPERTY; 17; 35].
+Proof. vm_compute. repeat split; auto 30. Qed.
+Print Assumptions c14_overlap_old_prune_by_id_lost_a_connected_peer.
+
+Theorem c14_overlap_repaired_prune_on_the_same_schedule :
+  let s := c_s (fst (c2run true w3_cfg (c2init w3_cfg) w3_sched)) in
+  tracked s 0 = true /\ count s = 3 /\ p_value (peer_at s 0) = 5 /\ p_conns (peer_at s 0) = [0%nat].
+Proof. vm_compute. repeat split. Qed.
+Print Assumptions c14_overlap_repaired_prune_on_the_same_schedule.
+
+Theorem c14_overlap_old_loop_agrees_when_no_stale_delete_fires : forall cfg sched cs,
+  no_stale (snd (c2run false cfg cs sched)) = true -> c2run true cfg cs sched = c2run false cfg cs sched.
+Proof. exact c2run_guard. Qed.
+Print Assumptions c14_overlap_old_loop_agrees_when_no_stale_delete_fires.
+
+
 (* a reachable state in which a trim closes the lowest-valued unprotected peer
    outside its grace period and keeps the protected and the young one *)
 Example trim_closes_lowest :
@@ -487,4 +678,37 @@ Example monitor_rejects_reregistered_tag_that_never_decays :
     [(Connected 0 0, mkObs 1 [(true, 0, 0)] []); (DClose 0, mkObs 1 [(true, 0, 0)] []);
      (DRegister 0 true, mkObs 1 [(true, 0, 0)] []); (Bump 0 0 4, mkObs 1 [(true, 4, 4)] []);
      (Advance 2, mkObs 1 [(true, 4, 4)] [])] = [ERR_PROPERTY; 4; 4].
+Proof. vm_compute. reflexivity. Qed.
+
+(* the split ForceTrim: pass 1 snapshots only the unprotected peer 1 (a Protect
+   after the snapshot does not save it), selects it, finds too little, and only
+   then pass 2 takes the protected peers; and the overlap monitor rejecting a
+   closed connection of a peer protected when THAT trim snapshotted it (31)
+   while accepting the same closed set from the other trim, which snapshotted
+   the peer before the Protect *)
+Example force_trim_split_protected_only_in_pass_two :
+  let r := c2run true (mkCfg 0 5 0 1 []) (c2init (mkCfg 0 5 0 1 []))
+    [BOp (Connected 1 0); BOp (Connected 2 0); BOp (Connected 3 0); BOp (Protect 2 0); BOp (Protect 3 0);
+     BForceRead; BBeginForce; thA (KSnap 1); thA (KSnap 2); thA (KSnap 3); thA KSnapEnd;
+     BOp (Protect 1 0);
+     thA (KSortEnd [1]%nat); thA KSelect; thA KSelect;
+     thA (KSnap 1); thA (KSnap 2); thA (KSnap 3); thA KSnapEnd; thA (KSortEnd [2; 1; 3]%nat);
+     thA KSelect; thA KSelect; thA KSelect; thA KFinish] in
+  In (VClosed false [(1%nat, 0%nat); (2%nat, 0%nat); (1%nat, 0%nat)]) (snd r)
+  /\ t_pass2 (c_a (fst r)) = true /\ map e_p (t_c1 (c_a (fst r))) = [1%nat].
+Proof. vm_compute. repeat split; auto 30. Qed.
+
+Definition m2_events (cfg : config) (evs : list ev2) : m2 + list Z := cmon2 cfg (m2_init (ainit cfg)) 0 evs.
+
+Example cmon2_judges_each_trim_by_its_own_snapshot :
+  m2_events (mkCfg 1 3 0 1 [])
+    [VOp (Connected 0 0); VOp (Connected 1 0); VBegin false false; VSnap false 0; VSnap false 1; VSnapEnd false;
+     VOp (Protect 0 0); VBegin true false; VSnap true 0; VSnap true 1; VSnapEnd true;
+     VClosed false [(0%nat, 0%nat)]; VClosed true [(0%nat, 0%nat)]] = inr [ERR_PROPERTY; 12; 31].
+Proof. vm_compute. reflexivity. Qed.
+
+Example cmon2_rejects_prune_of_a_connected_entry :
+  m2_events (mkCfg 1 3 0 1 [])
+    [VOp (TagPeer 0 0 1); VOp (Connected 1 0); VOp (Connected 2 0); VBegin false false; VSnap false 0; VSnapEnd false;
+     VOp (Connected 0 0); VPrune false 0] = inr [ERR_PROPERTY; 7; 35].
 Proof. vm_compute. reflexivity. Qed.
